@@ -23,11 +23,12 @@ VARIABLES tid, l, phase, lastUser, corrupt,
           aging,   \* C17: configured ageing interval (ms)
           walked,  \* C06: a restart without a usable cursor happened (full walk: deletions are not promised)
           xf,      \* C14: bag of effective engine transfers of this run: <<side, op, path, cid>> -> count
+          sm,      \* C20: on-demand bookkeeping [req: requested remote files, made: files users created/edited locally, un: path being un-requested or <<>>]
           runA     \* C14: summary of the reference run of a paired trace: [quiet, xf, conf], or [quiet |-> <<>>] when none
 tvars == <<tr, written, killed, dropped, merged, expect, exOK, chg, anc, origin, win, tags,
-           tid, l, phase, lastUser, corrupt, base0, kase, nres, pfault, notif, cur, aging, walked, xf, runA>>
-Aux == <<base0, kase, nres, pfault, notif, cur, aging, walked, xf, runA>>
-Sched == <<notif, cur, aging, walked, xf, runA>>
+           tid, l, phase, lastUser, corrupt, base0, kase, nres, pfault, notif, cur, aging, walked, xf, runA, sm>>
+Aux == <<base0, kase, nres, pfault, notif, cur, aging, walked, xf, runA, sm>>
+Sched == <<notif, cur, aging, walked, xf, runA, sm>>
 
 Traces == JsonDeserialize(IOEnv.TRACE_FILE)
 Tr == Traces[tid]
@@ -57,7 +58,7 @@ TraceInit ==
   /\ phase = "run" /\ lastUser = <<EmptyTree, EmptyTree>> /\ corrupt = {}
   /\ base0 = EmptyTree /\ kase = [kind |-> "none"] /\ nres = 0 /\ pfault = 0
   /\ notif = <<>> /\ cur = [oids |-> <<0, 0>>, neg |-> 0] /\ aging = 0 /\ walked = FALSE
-  /\ xf = <<>> /\ runA = [quiet |-> <<>>]
+  /\ xf = <<>> /\ runA = [quiet |-> <<>>] /\ sm = [req |-> {}, made |-> {}, un |-> <<>>]
 
 \* ---- the synchronised starting point ----------------------------------------------------------
 TBase ==
@@ -67,12 +68,31 @@ TBase ==
        /\ written' = (Cells(o[1]) \cup Cells(o[2])) \ {DIR}
        /\ base0' = o[1]
   /\ aging' = Ev.aging_ms
-  /\ UNCHANGED <<killed, dropped, merged, exOK, chg, anc, origin, win, tags, phase, corrupt, kase, nres, pfault, notif, cur, walked, xf, runA>>
+  /\ UNCHANGED <<killed, dropped, merged, exOK, chg, anc, origin, win, tags, phase, corrupt, kase, nres, pfault, notif, cur, walked, xf, runA, sm>>
   /\ Advance
 
 \* ---- a user operation (environment) ---------------------------------------------------------------
+\* threaded runs (C15): user operations are listed without an observation; they are applied to the model trees
+TUserModel ==
+  /\ Ev.ev = "UserOp" /\ "post" \notin DOMAIN Ev
+  /\ LET s  == Ev.side + 1
+         op == [k |-> Ev.op, p |-> Ev.path, q |-> Ev.dst, c |-> Ev.cid]
+     IN IF Applies(tr[s], op)
+          THEN /\ UserEffect(s, op, Apply(tr[s], op))
+               /\ tr' = [tr EXCEPT ![s] = Apply(tr[s], op)]
+          ELSE /\ UNCHANGED <<written, killed, expect, exOK, chg, anc, origin, tr>>
+               /\ TagEffect(s, op, FALSE, chg, anc, tr[s])
+  /\ UNCHANGED <<dropped, merged, phase, corrupt, lastUser>> /\ UNCHANGED Aux
+  /\ Advance
+\* C15: every mutation of the shared sync state happens while the mutating thread holds the state lock
+TPrim ==
+  /\ Ev.ev = "Prim"
+  /\ Check(Ev.owned = 1, "LockOwned")
+  /\ UNCHANGED <<tr, phase, lastUser, corrupt>> /\ LedgerFrame /\ UNCHANGED Aux
+  /\ Advance
+
 TUser ==
-  /\ Ev.ev = "UserOp"
+  /\ Ev.ev = "UserOp" /\ "post" \in DOMAIN Ev
   /\ LET s  == Ev.side + 1
          op == [k |-> Ev.op, p |-> Ev.path, q |-> Ev.dst, c |-> Ev.cid]
          o  == Obs(Ev.post)
@@ -86,7 +106,8 @@ TUser ==
                   /\ TagEffect(s, op, FALSE, chg, anc, tr[s])
         /\ tr' = o
         /\ lastUser' = [lastUser EXCEPT ![s] = o[s]]
-  /\ UNCHANGED <<dropped, merged, phase, corrupt>> /\ UNCHANGED Aux
+        /\ sm' = IF s = 1 /\ Ev.ok = 1 /\ Ev.op \in {"create", "write"} THEN [sm EXCEPT !.made = @ \cup {Ev.path}] ELSE sm
+  /\ UNCHANGED <<dropped, merged, phase, corrupt, base0, kase, nres, pfault, notif, cur, aging, walked, xf, runA>>
   /\ Advance
 
 \* ---- an engine-issued provider call: the contract guards are checked here ---------------------------
@@ -102,6 +123,11 @@ ECallChecks(s) ==
       c == Ev.cid
   IN /\ Check(phase # "after", "NoEcho")
      /\ Check(cur.neg = 1 \/ Ev.now - LastNotified >= aging, "Aged")
+     /\ IF kase.kind = "c20"
+          THEN /\ Check(~(s = 1 /\ Ev.op \in {"create", "upload"}) \/ p \in sm.req \cup sm.made \/ p[Len(p)] \in SeqSet(kase.auto),
+                        "DownloadOnlyOnDemand")
+               /\ Check(~(s = 2 /\ Ev.op = "delete" /\ Len(sm.un) > 0 /\ p = sm.un), "UnsyncKeepsRemote")
+          ELSE TRUE
      /\ Check(~Declined(p) /\ ~(Ev.op = "rename" /\ Declined(Ev.src)), "DeclinedLeftAlone")
      /\ CASE Ev.op = "create" ->
                /\ Check(InsideOK(p), "InsideRoot")
@@ -146,7 +172,7 @@ TECall ==
              THEN LET k == <<Ev.side, Ev.op, Ev.path, Ev.cid>> IN
                   [x \in DOMAIN xf \cup {k} |-> IF x = k THEN (IF k \in DOMAIN xf THEN xf[k] + 1 ELSE 1) ELSE xf[x]]
              ELSE xf
-  /\ LedgerFrame /\ UNCHANGED <<phase, lastUser, corrupt, base0, kase, nres, pfault, notif, cur, aging, walked, runA>>
+  /\ LedgerFrame /\ UNCHANGED <<phase, lastUser, corrupt, base0, kase, nres, pfault, notif, cur, aging, walked, runA, sm>>
   /\ Advance
 
 \* ---- C14: paired traces - the same history and sync schedule with prompt in-order delivery (run A) and with a
@@ -162,7 +188,7 @@ TSecondRun ==
   /\ phase' = "run" /\ lastUser' = <<EmptyTree, EmptyTree>> /\ corrupt' = {}
   /\ base0' = EmptyTree /\ nres' = 0 /\ pfault' = 0
   /\ notif' = <<>> /\ cur' = [oids |-> <<0, 0>>, neg |-> 0] /\ xf' = <<>>
-  /\ UNCHANGED <<kase, aging, walked>>
+  /\ UNCHANGED <<kase, aging, walked, sm>>
   /\ Advance
 TCompare ==
   /\ Ev.ev = "Compare"
@@ -216,6 +242,49 @@ TStepEnd ==
   /\ LedgerFrame /\ UNCHANGED <<phase, lastUser, corrupt, base0, kase, nres>> /\ UNCHANGED Sched
   /\ Advance
 
+\* ---- C20: on-demand sync --------------------------------------------------------------------------------------
+FilesOf(t) == {p \in DOMAIN t : t[p] # DIR}
+DirsOf(t)  == {p \in DOMAIN t : t[p] = DIR}
+AutoMatch(p) == p[Len(p)] \in SeqSet(kase.auto)
+SmartQuiet(o) ==
+  /\ Check(DirsOf(o[1]) = DirsOf(o[2]), "FoldersMirrored")
+  /\ Check(\A p \in FilesOf(o[1]) : Has(o[2], p) /\ o[2][p] = o[1][p], "LocalFilesInSync")
+  /\ Check(\A p \in sm.req : (Has(o[2], p) /\ o[2][p] # DIR) => (Has(o[1], p) /\ o[1][p] = o[2][p]), "RequestedDownloaded")
+  /\ Check(\A p \in FilesOf(o[2]) : (p \notin sm.req /\ p \notin sm.made /\ ~AutoMatch(p)) => ~Has(o[1], p), "UnrequestedStayRemote")
+TReq ==
+  /\ Ev.ev = "Req"
+  /\ sm' = IF Ev.ok = 1 THEN [sm EXCEPT !.req = @ \cup {Ev.path}] ELSE sm
+  /\ tr' = Obs(Ev.post)
+  /\ UNCHANGED <<phase, lastUser, corrupt, base0, kase, nres, pfault, notif, cur, aging, walked, xf, runA>> /\ LedgerFrame
+  /\ Advance
+TUnreq ==
+  /\ Ev.ev \in {"Unreq", "UnreqEnd"}
+  /\ IF Ev.ev = "Unreq"
+       THEN /\ sm' = [sm EXCEPT !.un = Ev.path, !.req = @ \ {Ev.path}]
+            /\ tr' = tr
+       ELSE LET o == Obs(Ev.post)
+                p == sm.un
+                before == tr
+            IN /\ Check(Has(o[2], p) /\ o[2][p] # DIR, "UnsyncKeepsRemote")
+               /\ Check(~Has(o[1], p), "UnsyncRemovesLocal")
+               /\ Check(IF Has(lastUser[1], p) /\ Has(o[2], p) THEN o[2][p] = lastUser[1][p] ELSE TRUE, "UnsyncUploadsNewerFirst")
+               /\ sm' = [sm EXCEPT !.un = <<>>, !.made = @ \ {p}]
+               /\ tr' = o
+  /\ UNCHANGED <<phase, corrupt, base0, kase, nres, pfault, notif, cur, aging, walked, xf, runA>> /\ LedgerFrame
+  /\ lastUser' = IF Ev.ev = "UnreqEnd" THEN [lastUser EXCEPT ![1] = Obs(Ev.post)[1]] ELSE lastUser
+  /\ Advance
+\* the merged listing: every local file synced, every not-yet-downloaded remote file not synced, nothing else
+TListing ==
+  /\ Ev.ev = "Listing"
+  /\ LET o == Obs(Ev.post)
+         d == Ev.dir
+         kidsL == {p[Len(p)] : p \in {q \in FilesOf(o[1]) : Parent(q) = d}}
+         kidsR == {p[Len(p)] : p \in {q \in FilesOf(o[2]) : Parent(q) = d}}
+         got == {<<x[1], x[2]>> : x \in {y \in SeqSet(Ev.items) : y[3] = 2}}      \* files only
+     IN Check(got = {<<nm, 1>> : nm \in kidsL} \cup {<<nm, 0>> : nm \in kidsR \ kidsL}, "ListingTruth")
+  /\ UNCHANGED <<tr, phase, lastUser, corrupt>> /\ LedgerFrame /\ UNCHANGED Aux
+  /\ Advance
+
 \* ---- C05: the resolver contract, evaluated at quiet for behaviours that declare a single conflict ------------
 \* kase = [kind "c05", path P, cidL, cidR, answer, pick, keep]; the only user operations are the two conflicting ones
 ConfCells(o) == UNION {{<<s, p>> : p \in ConflictedPaths(o[s])} : s \in Sides}
@@ -258,6 +327,7 @@ TQuiet ==
        /\ tr' = o
        /\ IF o[1] = o[2] THEN WindowReset ELSE UNCHANGED <<chg, anc, win>>
        /\ CaseAtQuiet(o)
+       /\ IF kase.kind = "c20" THEN SmartQuiet(o) ELSE TRUE
   /\ UNCHANGED <<written, killed, dropped, merged, expect, exOK, origin, tags, phase, lastUser, corrupt>> /\ UNCHANGED Aux
   /\ Advance
 TNoQuiet ==
@@ -317,19 +387,19 @@ TIntake ==
   /\ Ev.ev = "Intake"
   /\ LET k == <<Ev.side + 1, Ev.oid>> IN
        notif' = [x \in DOMAIN notif \cup {k} |-> IF x = k THEN Ev.now ELSE notif[x]]
-  /\ UNCHANGED <<tr, phase, lastUser, corrupt, base0, kase, nres, pfault, cur, aging, walked, xf, runA>> /\ LedgerFrame
+  /\ UNCHANGED <<tr, phase, lastUser, corrupt, base0, kase, nres, pfault, cur, aging, walked, xf, runA, sm>> /\ LedgerFrame
   /\ Advance
 TSyncEntry ==
   /\ Ev.ev = "SyncEntry"
   /\ cur' = [oids |-> Ev.oids, neg |-> Ev.neg]
-  /\ UNCHANGED <<tr, phase, lastUser, corrupt, base0, kase, nres, pfault, notif, aging, walked, xf, runA>> /\ LedgerFrame
+  /\ UNCHANGED <<tr, phase, lastUser, corrupt, base0, kase, nres, pfault, notif, aging, walked, xf, runA, sm>> /\ LedgerFrame
   /\ Advance
 \* C06: a new engine is started over the same storage and accounts
 TRestart ==
   /\ Ev.ev = "Restart"
   /\ walked' = (walked \/ Ev.variant # "intact")
   /\ tr' = Obs(Ev.post)
-  /\ UNCHANGED <<phase, lastUser, corrupt, base0, kase, nres, pfault, notif, cur, aging, xf, runA>> /\ LedgerFrame
+  /\ UNCHANGED <<phase, lastUser, corrupt, base0, kase, nres, pfault, notif, cur, aging, xf, runA, sm>> /\ LedgerFrame
   /\ Advance
 
 \* state-level family: a raw event tuple (or a discard) was applied to a real SyncState; only the table is judged
@@ -353,7 +423,7 @@ TSkip ==
 TraceNext ==
   /\ l <= Len(Tr)
   /\ \/ TBase \/ TUser \/ TECall \/ TStepEnd \/ TQuiet \/ TNoQuiet \/ TEscape \/ TAfter \/ TResolve
-     \/ TCorrupt \/ TSkip \/ TCase \/ TFault \/ TNotify \/ TIntake \/ TSyncEntry \/ TRestart \/ TSecondRun \/ TCompare \/ TStateOp
+     \/ TCorrupt \/ TSkip \/ TCase \/ TFault \/ TNotify \/ TIntake \/ TSyncEntry \/ TRestart \/ TSecondRun \/ TCompare \/ TStateOp \/ TUserModel \/ TPrim \/ TReq \/ TUnreq \/ TListing
 TraceSpec == TraceInit /\ [][TraceNext]_tvars
 
 ASSUME TLCSet(1, {}) /\ TLCSet(2, 0) /\ TLCSet(3, {})
